@@ -6,13 +6,24 @@ LEVEL = "proof"
 HBIN = "/verif/harness_arr/target/release/slarr"
 DRIVER = "/verif/lean/.lake/build/bin/slvarr"
 THEOREMS = ["C18_multirange", "C18_exhausted", "C18_collect", "C18_zero_dim", "C18_length", "C18_nodup", "C18_mem_iff",
-            "C18_lex_order", "C18_labelled", "C18_families_agree", "C18_keys", "C18_newtype_roundtrip"]
+            "C18_lex_order", "C18_labelled", "C18_families_agree", "C18_keys", "C18_newtype_roundtrip",
+            "C18_resume", "C18_resume_model", "C18_resume_list", "C18_sorted", "C18_resume_sorted", "C18_resume_length",
+            "C18_resume_min_max", "C18_resume_items"]
 RULE = ("EXHAUSTIVE: every shape with each dimension in 0..5 and rank 1..3 (6+36+216 shapes) x {unlabelled MArrN with "
         "[usize;N] indices, labelled MArrDN with usize index, labelled MArrDN with newtype index}: the full output of "
         "Indexes::indexes() (twice), Keys::keys() of the array type, Keys::keys() of every axis domain with the "
         "usize->Idx->usize round trip and the sibling-domain conversion of every key, each followed by three further "
-        "next() calls after exhaustion; compared token by token with the Lean model (MultiRange odometer / iproduct) "
-        "and with lexList of the shape. non-trivial = the implementation produced an observation line")
+        "next() calls after exhaustion; and RESUMED enumerations (op resume:<k>): for k in {0, 1, last dimension, last "
+        "dimension + 1, every row/plane size and that + 1, total/2, total-1, total, total+1} (deduplicated, k <= total+1) "
+        "both indexes() and keys() (the iterator types the crate returns, no adaptor in between) are advanced by k next() "
+        "calls (results reported) and the remainder is consumed, each time on a freshly advanced iterator, through "
+        "collect, for_each, fold, count, last, nth(0), nth(1) then next(), skip(1).next(), step_by(2).collect(), min, max, "
+        "position(== last tuple of the shape), all(|_| true) then next(); size_hint() of the advanced iterator is reported "
+        "as it is and must bracket the remaining length (lo <= remaining <= hi when hi is Some; contract check only, the "
+        "hint is not compared with the model); everything compared token by token with the Lean model (MultiRange odometer "
+        "run k steps then drained / iproduct item list behind a list iterator; count = length, last = getLast?, nth j = "
+        "l[j]?, step_by 2 = every second item, min/max = lexicographic fold, position = findIdx?) and with lexList of the "
+        "shape (drop k). non-trivial = the implementation produced an observation line")
 EXHAUSTIVE = {"quick": True, "thorough": True}
 nontrivial = default_nontrivial
 
@@ -46,7 +57,9 @@ LEVEL_TEXT = ("Kernel-checked theorems for every rank and every size vector: ite
               "MultiRange::new(size) yields exactly lexList size (the Cartesian product in lexicographic order, last coordinate "
               "fastest, length = product of the sizes, each tuple once, membership iff every coordinate is in range), nothing when "
               "a size is zero, and None forever after; the labelled iproduct! enumeration is the same list; keys = 0..n; newtype "
-              "index conversions are identities. The model is tied to the code by an exhaustive run over all 258 shapes x 3 "
+              "index conversions are identities; resumed enumerations: after k calls of next() (which return the first k tuples, None beyond "
+              "the end) a draining consumer sees exactly (lexList size).drop k, which is strictly increasing lexicographically (so min = "
+              "head, max = last), has length product - k truncated at 0, and whose j-th item is tuple k+j. The model is tied to the code by an exhaustive run over all 258 shapes x 3 "
               "families/index types, which also evaluates the lexList predicate on the implementation's own output.")
 
 
